@@ -243,6 +243,18 @@ func c10Structure(c *mon.Ctx, nc *Node, oc geojson.Object, build string, r *rand
 		c.Violation("children", "number of children", mk("Children", fmt.Sprint(len(ch)), fmt.Sprint(len(nc.Children))))
 		return
 	}
+	// Base() is the same list as Children()
+	if bo, ok := oc.(interface{ Base() []geojson.Object }); ok {
+		base := bo.Base()
+		same := len(base) == len(ch)
+		for i := 0; same && i < len(ch); i++ {
+			same = base[i] == ch[i]
+		}
+		if !same {
+			c.Violation("base-children", "Base() and Children() differ", mk("Base", fmt.Sprint(len(base)), fmt.Sprint(len(ch))))
+		}
+		c.Count("base_checked")
+	}
 	// order: each child serialises like the model child at the same place
 	allEmpty, np := true, 0
 	orderBad := false
